@@ -55,7 +55,7 @@ def make_target(rng, kind):
     out = gmat.random_dag_masks(rng, p)
     W = gmat.weighted(rng, out, "signed")
     s = int(SEED_POOL[int(rng.integers(4))]) if rng.random() < 0.6 else int(rng.integers(0, 2**32))
-    t = {"kind": kind, "seed": s, "W": W}
+    t = {"kind": kind, "seed": s, "W": W, "np_seed": int(rng.integers(1, 5)) if rng.random() < 0.25 else 0}
     if kind == "lganm_ctor":
         t.update(means=(-1.0, 2.0), variances=(0.5, 1.5))
     elif kind in ("lganm_sample", "anm_sample"):
@@ -69,7 +69,9 @@ def make_target(rng, kind):
         B = rng.normal(size=(p, p))
         t.update(mean=np.round(rng.uniform(-2, 2, p), 2), cov=B @ B.T + 0.1 * np.eye(p), n=int(rng.integers(1, 40)))
     elif kind == "dag_avg_deg":
-        t.update(p=int(rng.integers(2, 12)), k=float(np.round(rng.uniform(0, 1.5), 2)), w=(0.5, 2.0), ordering=bool(rng.random() < 0.5))
+        pp = int(rng.integers(2, 12))
+        t.update(p=pp, k=float(np.round(rng.uniform(0, 1.5), 2)) if rng.random() < 0.7 else float(rng.choice([0, pp - 1, pp - 1.0, (pp - 1) / 2.0])),
+                 w=(0.5, 2.0), ordering=bool(rng.random() < 0.5))
     elif kind == "dag_full":
         t.update(p=int(rng.integers(1, 9)), w=(-2.0, -0.5), ordering=bool(rng.random() < 0.5))
     elif kind == "intervention_targets":
@@ -155,6 +157,8 @@ def _variant(t):
 
 def _call(t, obj, seeded, sempler, gens, U):
     s = t["seed"] if seeded else None
+    if s is not None and t.get("np_seed"):
+        s = (np.int64, np.int32, np.uint32, np.uint8)[t["np_seed"] - 1](s % (2**31 if t["np_seed"] == 2 else (256 if t["np_seed"] == 4 else 2**32)))
     k = t["kind"]
     W = t["W"]
     if k == "lganm_ctor":
@@ -284,6 +288,8 @@ def judge(family, case, rec):
             rec.violation("C13:unseeded-calls-identical-" + kind, family, case, "two consecutive unseeded %s calls returned identical samples" % kind)
         return
     rec.count("target:" + kind)
+    if target.get("np_seed"):
+        rec.count("seed:numpy-integer-scalar")
     if target["seed"] == 0:
         rec.count("seed:0")
     ops = [pt["op"] for prog in case["programs"] for pt in prog]
